@@ -154,8 +154,10 @@ def rand_tables(spec):
         for j in range(k):
             m = 1 if det else r.choice([1, 2, 2, 3])
             succ = r.sample(range(n), min(m, n))
-            if j == 0 and (i + 1) not in succ:
-                succ[0] = i + 1                      # action 0 keeps a chain to the goal n-1
+            if (j == 0 or spec.get("reward") == "goal") and (i + 1) not in succ:
+                succ[0] = i + 1                      # action 0 keeps a chain to the goal n-1; for the episodic learners (td, rmax:
+                #                                      reward "goal") EVERY action does, so that every policy ends its episode with
+                #                                      probability 1 (R-MAX's greedy policy has no step cap and no exploration)
             cuts = sorted(r.sample(range(1, 8), len(succ) - 1))
             parts = [b - a for a, b in zip([0] + cuts, cuts + [8])]
             probs = [p / 8 for p in parts]
@@ -164,7 +166,7 @@ def rand_tables(spec):
                 table = {1: [[1.0]], 2: [[1 / 3, 2 / 3], [0.1, 0.9], [0.7, 0.3]],
                          3: [[0.7, 0.2, 0.1], [1 / 3, 1 / 3, 1 / 3], [1 / 7, 2 / 7, 4 / 7], [0.1, 0.3, 0.6]]}[len(succ)]
                 probs = table[(3 * i + j) % len(table)]
-            if spec.get("tiny") and len(succ) >= 2:
+            if spec.get("tiny") and len(succ) >= 2 and (j == 0 or spec.get("reward") != "goal"):
                 # tiny probabilities that matter (below isclose's atol): 2^-30 / 2^-45 / 2^-58; the chain successor of
                 # action 0 keeps only that tiny mass on odd rows, so it is the only planned route forward there
                 tp = [2.0 ** -30, 2.0 ** -45, 2.0 ** -58][(i + j) % 3]
@@ -821,10 +823,26 @@ def render_(val):
     return r
 
 
+RUN_LIMIT_S = int(os.environ.get("C13_RUN_LIMIT_S", "40"))       # watchdog: one run of one component (normally << 1 s)
+
+
+class DidNotFinish(BaseException):
+    pass
+
+
+def _alarm(signum, frame):
+    raise DidNotFinish("run exceeded %d s" % RUN_LIMIT_S)
+
+
 def bracket(thunk):
-    """one run bracketed by global-generator snapshots; thunk() -> (result, anything to keep)"""
+    """one run bracketed by global-generator snapshots; thunk() -> (result, anything to keep).  A run that exceeds
+    RUN_LIMIT_S is cut off and reported as error 'DidNotFinish' for THIS run (the harness counts it; it is a violation only
+    if the runs it is compared with did finish)"""
     import contextlib
     import io
+    import signal
+    signal.signal(signal.SIGALRM, _alarm)
+    signal.alarm(RUN_LIMIT_S)
     before = snapshot()
     keep = None
     buf = io.StringIO()
@@ -841,8 +859,12 @@ def bracket(thunk):
             raise
         import traceback
         r = {"error": type(e).__name__ + ": " + str(e)[:300], "trace": traceback.format_exc()[-1200:]}
+    finally:
+        signal.alarm(0)
     after = snapshot()
     r["globals_changed"] = [k for k in ("random", "numpy", "torch") if before[k] != after[k]]
+    if r.get("error", "").startswith("DidNotFinish"):
+        r["globals_changed"] = []                # an interrupted run says nothing about the generators
     return r, keep
 
 
@@ -863,6 +885,15 @@ def one(case, pl):
     out = {"hashseed": os.environ.get("PYTHONHASHSEED"), "str_hash_probe": hash("msdm-c13-probe") & 0xffff}
     set_globals(1)
     out["A"], _ = bracket(fresh)
+    if out["A"].get("error", "").startswith("DidNotFinish"):
+        # the component does not terminate within reason on this input: outside what C13 speaks about (runs that finish).
+        # Nothing else is run; every mandatory run carries the same marker, the harness counts the case.
+        for k in ("R", "B", "D"):
+            out[k] = dict(out["A"])
+        out["C"] = [dict(out["A"])]
+        out["did_not_finish"] = True
+        out["inputs_mutated"] = False
+        return out
     call = holder.get("call")
     if call is not None:
         # run R: a SECOND call of the per-call entry point on the SAME planner / learner / policy / semi-MDP object
